@@ -10,20 +10,28 @@ section
 variable {S : Schema} {T : String → Bytes → Bytes} {g fa : String → Val → Bool} {r : Rec}
 variable {name : String} {d : StructDef} {E vs : List (String × Val)}
 
-/-- the discriminant of a conditional member: an earlier, unconditional member with an integer local -/
+/-- the discriminant of a conditional member: an unconditional member (earlier, or later for a union)
+    with an integer local -/
 theorem DedStruct.disc (h : DedStruct S T g fa r name d E vs) {f : Field} (hf : f ∈ d.fields) {c : Cond}
     (hc : f.cond = some c) {a : Int} (ha : envInt E c.field = .ok a) :
     ∃ gk, lookupField d.fields c.field = some gk ∧ gk ∈ d.fields ∧ gk.name = c.field ∧ gk.cond = none ∧
       discKindOk c gk.kind = true ∧ Val.get E gk.name = some (.int a) ∧
       (gk.kind.carries = true → Val.get vs c.field = some (.int a)) := by
-  obtain ⟨pre, post, hsplit, -, hcov, hearly⟩ := field_pos h.wf.fields h.wf.covered h.early hf
-  have hsome := hearly c hc
+  obtain ⟨pre, post, hsplit, -, hcov⟩ := field_pos h.wf.fields h.wf.covered hf
   unfold condCovered at hcov
-  simp only [hc, hsome, if_true] at hcov
-  obtain ⟨gk, hl, hgm, hgn, hgc, hgk⟩ := refOk_field (f := f) (post := post) hcov
-  rw [← hsplit] at hl
-  have hgd : gk ∈ d.fields := by rw [hsplit]; exact List.mem_append_left _ hgm
+  simp only [hc] at hcov
   have hEa := envInt_ok ha
+  have key : ∃ gk, gk ∈ d.fields ∧ gk.name = c.field ∧ gk.cond = none ∧ discKindOk c gk.kind = true := by
+    by_cases hsome : (lookupField pre c.field).isSome = true
+    · simp only [hsome, if_true] at hcov
+      obtain ⟨gk, -, hgm, hgn, hgc, hgk⟩ := refOk_field (f := f) (post := post) hcov
+      exact ⟨gk, by rw [hsplit]; exact List.mem_append_left _ hgm, hgn, hgc, hgk⟩
+    · simp only [hsome, Bool.false_eq_true, if_false, Bool.and_eq_true] at hcov
+      obtain ⟨gk, -, hgm, hgn, hgc, hgk⟩ := refOk_field (pre := post) (f := f) (post := []) hcov.1
+      exact ⟨gk, by rw [hsplit]; simp [hgm], hgn, hgc, hgk⟩
+  obtain ⟨gk, hgd, hgn, hgc, hgk⟩ := key
+  have hl : lookupField d.fields c.field = some gk := by
+    rw [← hgn]; exact lookupField_of_mem h.wf.names hgd
   refine ⟨gk, hl, hgd, hgn, hgc, hgk, by rw [hgn]; exact hEa, ?_⟩
   intro hcar
   have := h.carried hgd hcar
